@@ -427,10 +427,13 @@ pub fn gen_obj_jumbo(rng: &mut Rng) -> GenObj {
     if rng.chance(1, 4) {
         // a hundred thousand comment and blank lines around a small mesh
         let mut text = Vec::new();
-        let n = rng.usize(60_000, 120_000);
+        // (a recursive skipper needs some hundred thousand of them in a row to exhaust an
+        // 8 MiB stack)
+        let n = rng.usize(250_000, 500_000);
+        let at = if rng.chance(1, 2) { n - 10 } else { n / 2 };
         for i in 0..n {
             text.extend_from_slice(if i % 3 == 0 { b"\n" } else { b"#\n" });
-            if i == n / 2 {
+            if i == at {
                 text.extend_from_slice(b"v 1 2 3\nv 4 5 6\nv -0 7e-1 8\nf 1 2 3\n");
             }
         }
